@@ -332,7 +332,7 @@ class Run(object):
             out.update(outcome="exc", exc_type="IOError", errno=e.errno or 0, msg=str(e)[:80])
             if e.errno != errno.ENODEV:
                 self.note_exc(name, opname, e)
-        except Exception as e:
+        except BaseException as e:          # noqa: incl. SystemExit (llc.run turns an IOError into SystemExit)
             out.update(outcome="exc", exc_type=type(e).__name__, msg=str(e)[:80],
                        documented=isinstance(e, (nfc.clf.CommunicationError, nfc.clf.UnsupportedTargetError)))
             self.note_exc(name, opname, e)
